@@ -25,7 +25,7 @@ pub fn parse_to_json(rec: &J) -> Result<Result<J, String>, String> {
     let text = concretise_src(rec["text"].as_str().unwrap());
     let back = back_map(rec);
     catch_unwind(AssertUnwindSafe(|| match rrss::frontend::parser::parse(&text) {
-        Ok(p) => Ok(Out { back: &back }.program(&p)),
+        Ok(p) => Ok(Out { back: &back, corpus: false }.program(&p)),
         Err(e) => Err(e.to_string()),
     }))
     .map_err(panic_msg)
@@ -340,7 +340,7 @@ pub fn check_verdict(rec: &J) -> Verdict {
     let text = concretise_src(rec["text"].as_str().unwrap());
     let back = HashMap::new();
     let got = catch_unwind(AssertUnwindSafe(|| match rrss::frontend::parser::parse(&text) {
-        Ok(p) => Ok(Out { back: &back }.program(&p)),
+        Ok(p) => Ok(Out { back: &back, corpus: false }.program(&p)),
         Err(e) => Err(e.to_string()),
     }));
     let v = &rec["v"];
